@@ -239,8 +239,10 @@ func (s *SamplerFactory) ClearDynsamplers() {
 
 	// Stop all shared dynsamplers
 	for _, entry := range s.sharedDynsamplers {
-		if stopper, ok := entry.dynsampler.(interface{ Stop() }); ok {
-			stopper.Stop()
+		// dynsampler-go's Stop returns an error; asserting a Stop() without
+		// results never matched, which left every dynsampler goroutine running
+		if stopper, ok := entry.dynsampler.(interface{ Stop() error }); ok {
+			_ = stopper.Stop()
 		}
 	}
 
